@@ -171,6 +171,8 @@ def _dates_for(zone: str, ctx: Ctx) -> list[tuple[int, int, int]]:
     return ds
 
 
+FAR_BASE = 3551 * 7 * 86400          # 2038-01-20, a whole number of weeks after the epoch: instants of far-future scenarios are counted from it
+
 MALFORMED = ["", ":", "2100", "21", "21:", ":00", "24:00", "23:60", "99:99", "ab:cd", "21:0x", "2a:00", "21:00:33",
              "21:00:", "21:00:00:00", "-1:00", "21:-5", "21.00", "21;00", "٢١:٠٠"[:0] + "xx:yy", "1e:00", "0x10:00", "21:00pm",
              "25:61", "100:00", "21:000", "שש:00", "12:3é", "::", "21::00", "21:00:xx", "1:2:3", "+1:00", "1 2:00"]
@@ -189,7 +191,8 @@ class C11(Prop):
     assumptions = [
         "minutes that do not exist on the local date (DST gap) are not constrained (statement: 'that exists today')",
         "one-digit / blank-padded spellings the platform's %H:%M grammar accepts ('9:5', ' 09:05') are not constrained",
-        "dates before 2038 only (TLC integers are 32-bit)",
+        "dates after 2038-01-19 are covered up to 2105 (the 32-bit field ends in February 2106); their instants are handed to TLC "
+        "relative to a base that is a whole number of weeks after the epoch, because TLC's integers are 32-bit",
         "zone rules handed to the specification come from the tz database via zoneinfo; the library uses libc mktime/localtime",
     ]
 
@@ -206,6 +209,9 @@ class C11(Prop):
         for (y, m, d) in ((2026, 12, 31), (2026, 6, 15)):
             for z in zones:                     # one date, zone after zone, in one process
                 out.append({"zone": z, "date": [y, m, d], "now_hh": 12, "seed": 5 * ctx.rng.randrange(1 << 20)})
+            for z in zones[:6]:                 # "on any date": after 2038-01-19 the epoch second no longer fits 31 bits (it fits 32 until 2106)
+                for fy, fm, fd in ((2038, 1, 18), (2038, 1, 19), (2038, 1, 20), (2040, 3, 25), (2100, 2, 28), (2100, 3, 1), (2105, 12, 31)):
+                    out.append({"zone": z, "date": [fy, fm, fd], "now_hh": 12, "seed": 5 * ctx.rng.randrange(1 << 20), "few": True, "base": FAR_BASE})
             for z in zones:                     # ... and with few clock strings, so that nothing remembered is pushed out
                 out.append({"zone": z, "date": [y, m, d], "now_hh": 12, "seed": 5 * ctx.rng.randrange(1 << 20), "few": True})
         return out
@@ -221,6 +227,11 @@ class C11(Prop):
         hh = scn["now_hh"]
         now = local_instant(z, y, m, d, hh, {0: 0, 12: 30, 23: 59}[hh], 17 if hh else 1)
         rules = zone_rules(z, now)
+        base = scn.get("base", 0)
+        extra = {}
+        if base:
+            rules = [[0 if k == 0 else r[0] - base, r[1]] for k, r in enumerate(rules)]
+            extra = {"base": [base >> 16, base & 0xFFFF]}
         evs = []
         with host_zone(z), frozen(float(now - now % 60) + [0.25, 59.75, 29.5, 59.5, 0.0][scn["seed"] % 5]):
             texts = [f"{mn // 60:02d}:{mn % 60:02d}" for mn in range(1440)] + MALFORMED + LENIENT
@@ -228,7 +239,7 @@ class C11(Prop):
                 texts = [f"{mn // 60:02d}:{mn % 60:02d}" for mn in range(0, 1440, 37)] + ["23:59", "9:30"]
             seen = []
             for t in texts:
-                e = {"ev": "Clock", "zone": rules, "now": now, "text": text(t), "raised": False, "out": [], "back": []}
+                e = {"ev": "Clock", "zone": rules, "now": now - base, "text": text(t), "raised": False, "out": [], "back": [], **extra}
                 try:
                     hx = enc(t)
                     e["out"] = list(unhexlify(hx))
@@ -243,10 +254,10 @@ class C11(Prop):
                 evs.append(e)
             inst = [now + rng.randrange(-2 * 86400, 2 * 86400) for _ in range(300)]
             for r in rules[1:]:
-                inst += [r[0] - 1, r[0], r[0] + 1, r[0] - 60, r[0] + 59, r[0] + 3600]
+                inst += [base + r[0] - 1, base + r[0], base + r[0] + 1, base + r[0] - 60, base + r[0] + 59, base + r[0] + 3600]
             for t in inst:
                 t4 = list(int(t).to_bytes(4, "little"))
-                e = {"ev": "Unclock", "zone": rules, "t4": t4, "raised": False, "out": []}
+                e = {"ev": "Unclock", "zone": rules, "t4": t4, "raised": False, "out": [], **extra}
                 try:
                     e["out"] = text(dec(hexlify(bytes(t4))))
                 except Exception as x:  # noqa: BLE001
